@@ -521,3 +521,40 @@ def d4(proj, rep):
     else:
         rep.undecided('D4', f.qual, 'append of the measure gate not found', f.module, f.node, text='Circuit.measure append')
     return n
+
+
+# ------------------------------------------------------------------------------------------------ D5
+RULE_D5 = ('D5: the order of target qubits is semantic (it selects which tensor leg of the gate acts on which qubit): in every Circuit '
+           'builder the recorded target tuple is hf_tuple_of_int(<argument>) / tuple(int(..)) in the caller\'s order - never sorted, set-ified '
+           'or reversed; only the control set may be normalised.')
+
+
+def d5(proj, rep):
+    rep.rule('D5', RULE_D5)
+    m = proj.mod(CMOD)
+    rep.touch(m)
+    n = 0
+    fns = []
+    ci = proj.cls(CIRC)
+    for name, fi in ci.methods.items():
+        fns.append((f'{CIRC}.{name}', fi.node))
+    for q, fi in proj.funcs.items():
+        if fi.module is m and fi.cls is None and q.rsplit('.', 1)[1].startswith('_') and q.endswith('_gate'):
+            for inner in fi.node.body:
+                if isinstance(inner, ast.FunctionDef):
+                    fns.append((q, inner))
+    for q, fn in fns:
+        for s2 in ast.walk(fn):
+            if isinstance(s2, ast.Assign) and isinstance(s2.targets[0], ast.Name) and ('target' in s2.targets[0].id):
+                t = ast.unparse(s2.value).replace(' ', '')
+                if 'hf_tuple_of_int' not in t and 'int(' not in t:
+                    continue
+                n += 1
+                bad = [w for w in ('sorted(', 'set(', 'reversed(', '[::-1]', 'frozenset(') if w in t]
+                if bad:
+                    rep.violation('D5', q, f'`{ast.unparse(s2)}` normalises the TARGET qubits with {bad[0].rstrip("(")}: their order is lost, so a gate '
+                                  f'whose matrix is not symmetric under exchange of its qubits acts on the wrong legs', m, s2)
+                else:
+                    rep.ok('D5', q, f'`{ast.unparse(s2)[:70]}` keeps the caller\'s order', m, s2)
+    rep.count('D5.target_assignments', n)
+    return n
